@@ -73,8 +73,13 @@ def build_all(prop, pid, tier, need_model=True):
 
 def evaluate(prop, cases, model_out, impl_out, known_classes):
     """Returns (disagreements, violations, known_hits, stats)."""
-    agree = getattr(prop, "agree", lambda i, m: i == m)
-    meets = getattr(prop, "meets_spec", lambda i, s: i == s)
+    if getattr(prop, "TWO_PHASE", False):
+        # the model printed verdicts about the observed trace: "OK" or a reason
+        agree = getattr(prop, "agree", lambda i, m: m == "OK")
+        meets = getattr(prop, "meets_spec", lambda i, s: s == "OK")
+    else:
+        agree = getattr(prop, "agree", lambda i, m: i == m)
+        meets = getattr(prop, "meets_spec", lambda i, s: i == s)
     dis, vio, known = [], [], {}
     for c, mo, io in zip(cases, model_out, impl_out):
         m, s, k = split3(mo)
@@ -127,8 +132,9 @@ def run(pid, tier, seed, replay=None):
     samples = []
     per_config = []
     model_out = []
+    two_phase = bool(getattr(prop, "TWO_PHASE", False))
     if info["zmodel"] is not None and cases:
-        model_out = core.run_lines(info["zmodel"], cases)
+        model_out = core.run_lines(info["zmodel"], cases) if not two_phase else []
         if any(x.startswith("BADCASE") for x in model_out):
             bad = [c for c, x in zip(cases, model_out) if x.startswith("BADCASE")][:3]
             tool_errors.append("model rejected case syntax: %r" % bad)
@@ -136,12 +142,17 @@ def run(pid, tier, seed, replay=None):
             if b is None:
                 continue
             lines = prop.lines_for(c, cases) if hasattr(prop, "lines_for") else cases
-            impl_out = core.run_lines(b, lines, env=c.get("env"), args=c.get("args"))
+            impl_out = core.run_lines(b, lines, env=c.get("env"), args=c.get("args"), shards=getattr(prop, "SHARDS", None),
+                                      timeout=getattr(prop, "RUN_TIMEOUT", 3000))
             if any(x.startswith("BADCASE") for x in impl_out):
                 bad = [cs for cs, x in zip(cases, impl_out) if x.startswith("BADCASE")][:3]
                 tool_errors.append("harness rejected case syntax: %r" % bad)
             mo = model_out
-            if hasattr(prop, "model_lines_for"):
+            if two_phase:
+                # the model judges the implementation's observed trace: input = case <TAB> observation
+                mo = core.run_lines(info["zmodel"], [cs + "\t" + io for cs, io in zip(cases, impl_out)])
+                model_out = mo
+            elif hasattr(prop, "model_lines_for"):
                 mo = core.run_lines(info["zmodel"], prop.model_lines_for(c, cases))
             d, v, k = evaluate(prop, cases, mo, impl_out, known_classes)
             for x in d + v:
@@ -165,7 +176,8 @@ def run(pid, tier, seed, replay=None):
         # extraction vs in-Coq evaluation on a sample
         k = 25 if tier == "quick" else 100
         idx = sorted(rng.sample(range(len(cases)), min(k, len(cases))))
-        okx, outx = core.vm_crosscheck(pid, prop.RUN_MODULE, [cases[i] for i in idx], [model_out[i] for i in idx],
+        xin = cases if not two_phase else [cs + "\t" + io for cs, io in zip(cases, impl_out)]
+        okx, outx = core.vm_crosscheck(pid, prop.RUN_MODULE, [xin[i] for i in idx], [model_out[i] for i in idx],
                                        getattr(prop, "RUN_FN", "run"))
         if not okx:
             tool_errors.append("extracted model and vm_compute disagree on the sample: " + outx[-400:])
@@ -209,11 +221,13 @@ def run(pid, tier, seed, replay=None):
             extra = dedupe(list(prop.search(rng, [d["case"] for d in disagreements[:50]])))
             searched = len(extra)
             if extra:
-                mo2 = core.run_lines(info["zmodel"], extra)
+                mo2 = core.run_lines(info["zmodel"], extra) if not two_phase else []
                 for c, b, err in info["bins"]:
                     if b is None:
                         continue
                     io2 = core.run_lines(b, extra, env=c.get("env"), args=c.get("args"))
+                    if two_phase:
+                        mo2 = core.run_lines(info["zmodel"], [cs + "\t" + io for cs, io in zip(extra, io2)])
                     d2, v2, _ = evaluate(prop, extra, mo2, io2, known_classes)
                     if v2:
                         found = v2[0]
